@@ -14,7 +14,44 @@ RULE = ("forest-shaped factor graphs (binary/3-ary/unary factors, variable costs
 ROUNDS_EXTRA = 8
 
 
+def _draw_structured(rng, tier):
+    """Soft equal/different couplings of a common magnitude plus a few unary preferences on a
+    chain or tree (graph-colouring-like): information has to travel several hops and messages
+    are often exact negations / repetitions of earlier ones."""
+    n = rng.randint(3, 8)
+    names = [f"v{i}" for i in range(n)]
+    k = rng.choice([2, 2, 3])
+    objective = rng.choice(["min", "max"])
+    domains = {"d_" + x: list(range(k)) for x in names}
+    variables = [{"name": x, "domain": "d_" + x, "initial": None, "cost": None} for x in names]
+    if rng.random() < 0.7:
+        order = names[:]
+        rng.shuffle(order)
+        edges = [(order[i], order[i + 1]) for i in range(n - 1)]
+    else:
+        edges = gen.edges_for_shape(rng, names, "tree")
+    w = rng.choice([1, 2, 4])
+    constraints = []
+    for i, (a, b) in enumerate(edges):
+        eq = rng.random() < 0.5
+        table = [(w if (x == y) == eq else 0) for x in range(k) for y in range(k)]
+        constraints.append({"name": f"c{i}", "scope": [a, b], "table": table,
+                            "render": rng.choice(["matrix", "expr"])})
+    for x in rng.sample(names, rng.randint(1, min(3, n))):
+        table = [rng.choice([0, 2, 10]) for _ in range(k)]
+        if rng.random() < 0.5:
+            constraints.append({"name": f"u_{x}", "scope": [x], "table": table, "render": "matrix"})
+        else:
+            for v in variables:
+                if v["name"] == x:
+                    v["cost"] = {"kind": rng.choice(["dict", "func"]), "costs": table}
+    return {"objective": objective, "domains": domains, "variables": variables,
+            "constraints": constraints, "shape": "structured", "cost_class": "structured"}
+
+
 def _draw(rng, tier):
+    if rng.random() < 0.3:
+        return _draw_structured(rng, tier)
     big = tier == "thorough"
     n = rng.randint(1, 7 if big else 6)
     names = [f"v{i}" for i in range(n)]
@@ -143,7 +180,7 @@ def execute(case, tape):
     return out
 
 
-BUDGET = {"quick": (64000, 75), "thorough": (1200000, 1500)}
+BUDGET = {"quick": (48000, 75), "thorough": (1200000, 1500)}
 REAL = ["pydcop.algorithms.maxsum", "pydcop.algorithms.amaxsum",
         "pydcop.infrastructure.computations (SynchronousComputationMixin)",
         "pydcop.computations_graph.factor_graph", "pydcop.dcop.relations"]
